@@ -191,8 +191,10 @@ def crop(ctx, R="R-C15-crop"):
     sub = [n for n in f.body_nodes() if isinstance(n, ast.Subscript) and isinstance(n.slice, ast.Slice) and isinstance(n.value, ast.Call)
            and prog.qualify(f.module, n.value.func, f) == "numpy.correlate"]
     ctx.need(len(sub) == 1, R, "crop of the correlation not found")
-    lo = S.subst(ev.expr(sub[0].slice.lower), {S.call("len", S.sym("filt")): S.sym("flen")})
-    hi = S.subst(ev.expr(sub[0].slice.upper), {S.call("len", S.sym("filt")): S.sym("flen")})
+    st_sub = astq.enclosing_stmt(astq.parents(f), sub[0])
+    lo = S.subst(evf.eval_at(st_sub, sub[0].slice.lower), {S.call("len", filt_e): S.sym("flen"), S.call("len", S.sym("filt")): S.sym("flen")})
+    hi = S.subst(evf.eval_at(st_sub, sub[0].slice.upper), {S.call("len", filt_e): S.sym("flen"), S.call("len", S.sym("filt")): S.sym("flen")})
+    ctx.need(set(S.symbols(lo)) | set(S.symbols(hi)) <= {"flen"}, R, "crop bounds are not functions of the filter length: %s, %s" % (S.show(lo)[:60], S.show(hi)[:60]))
     n, flen, m = S.sym("n"), S.sym("flen"), S.sym("m")
     # full correlation of a length n+2*mo signal with a length-flen filter has n + 2*mo + flen - 1 samples;
     # slice [lo : hi] with hi negative keeps (total + hi - lo)
